@@ -81,6 +81,8 @@ class C17(core.Prop):
             {'t': 'ab', 'weights': [0.25, None, 0.75], 'n': 30},
             {'t': 'latest', 'release': None, 'steps': [[[1, [1]], [2, []]], [[1, [1]], [2, [1]]]]},
             {'t': 'latest', 'release': None, 'steps': [[[1, [2]], [2, []]], [[1, [2]], [2, [1, 2]]]]},
+            # one selector serving a second registry that gains a generation after the refresher has started
+            {'t': 'latest', 'release': None, 'steps': [[[1, [1]]]], 'second': [[[1, [1, 2]]], [[1, [1, 2, 3]]], [[1, [1, 2, 3]], [2, [1]]]]},
         ]
 
     def cases(self, rng, tier):
@@ -122,7 +124,11 @@ class C17(core.Prop):
                     tgt = rng.choice(cur)
                     tgt[1].append(max(tgt[1] + [0]) + 1)
                 steps.append(cur)
-            out.append({'t': 'latest', 'release': rng.choice([None, None, None, rels[0]]), 'steps': steps})
+            case = {'t': 'latest', 'release': rng.choice([None, None, None, rels[0]]), 'steps': steps}
+            if rng.random() < 0.4:
+                # the same selector also serves a second registry with its own history
+                case = {**case, 'steps': steps[:1], 'second': steps}
+            out.append(case)
         for _ in range(5):
             out.append({'t': 'explicit', 'reg': [[1, [1, 2, 3]], [2, [1]]], 'release': rng.choice([1, 2]), 'generation': 1})
         return out
@@ -153,7 +159,7 @@ class C17(core.Prop):
             return terms
         if t == 'latest':
             terms = []
-            for step, got in zip(case['steps'], obs['picks']):
+            for step, got in list(zip(case['steps'], obs['picks'])) + list(zip(case.get('second', []), obs.get('picks2', []))):
                 reg = cl([cp(cz(r), cl([cz(g) for g in gens], 'Z')) for r, gens in step], 'Z * list Z')
                 o = co(got, lambda p: cp(cz(int(p[0])), cz(p[1])), 'Z * Z')
                 terms.append(f"(C17Cases.QCase (C17.CPick {reg} {co(case['release'], cz, 'Z')} {o}))")
@@ -182,7 +188,7 @@ class C17(core.Prop):
                 return f'variant {worst[1]} deviates from its share by {float(worst[2]):.3f} requests after {worst[0]} requests (k={len(targets)})'
             return None
         if t == 'latest':
-            for step, got in zip(case['steps'], obs['picks']):
+            for step, got in list(zip(case['steps'], obs['picks'])) + list(zip(case.get('second', []), obs.get('picks2', []))):
                 if case['release'] is not None:
                     gens = [g for r, gs in step if r == case['release'] for g in gs]
                     want = [str(case['release']), max(gens)] if gens else None
@@ -220,7 +226,7 @@ class C17(core.Prop):
     def nontrivial(self, case, obs):
         if case['t'] == 'ab':
             return len(case['weights']) >= 3 or any(w is None for w in case['weights'])
-        return case['t'] == 'latest' and len(case['steps']) >= 2
+        return case['t'] == 'latest' and (len(case['steps']) >= 2 or len(case.get('second', [])) >= 2)
 
     def shrink(self, case):
         out = []
